@@ -46,8 +46,9 @@ def body(chk):
             lo[(0, ln, "sensor_acquisition_date")] = st
             if level == "1.1":
                 lo[(0, ln, "sensor_acquisition_date_microseconds")] = st[2] * 1000 + (7 * ln) % 1000
-        cases.append(dict(level=level, seed=chk.seed + 90, k=None, files=("IMG",), images=(("HH", None, 6, 1), ("HV", None, 2, 1)), fs="local",
-                          line_overrides=lo, tag="midnight"))
+        for rpc in (2, 3, 4, 1024):  # midnight on a boundary between groups of records_per_chunk lines, and inside a group
+            cases.append(dict(level=level, seed=chk.seed + 90, k=None, files=("IMG",), images=(("HH", None, 6, 1), ("HV", None, 2, 1)), fs="local",
+                              line_overrides=lo, tag=f"midnight-rpc{rpc}", rpc=rpc))
     n_rand = 24 if chk.tier == "quick" else 800
     for j in range(n_rand):
         level = ("1.5", "1.1", "3.1")[j % 3]
